@@ -123,7 +123,33 @@ impl<T> RwLock<T> {
     }
   }
 }
+impl<T> RwLock<T> {
+  pub fn into_inner(self) -> LockResult<T> {
+    Ok(self.data.into_inner())
+  }
+}
 impl<T: ?Sized> RwLock<T> {
+  pub fn get_mut(&mut self) -> LockResult<&mut T> {
+    Ok(self.data.get_mut())
+  }
+  /// non-blocking attempts: granted iff the modelled lock is free for that mode at this point
+  /// (a scheduling point precedes the attempt)
+  #[track_caller]
+  pub fn try_read(&self) -> ::std::sync::TryLockResult<RwLockReadGuard<'_, T>> {
+    if rt::try_acquire(self.id, rt::Mode::Read, Location::caller()) {
+      Ok(RwLockReadGuard { lock: self })
+    } else {
+      Err(::std::sync::TryLockError::WouldBlock)
+    }
+  }
+  #[track_caller]
+  pub fn try_write(&self) -> ::std::sync::TryLockResult<RwLockWriteGuard<'_, T>> {
+    if rt::try_acquire(self.id, rt::Mode::Write, Location::caller()) {
+      Ok(RwLockWriteGuard { lock: self })
+    } else {
+      Err(::std::sync::TryLockError::WouldBlock)
+    }
+  }
   #[track_caller]
   pub fn read(&self) -> LockResult<RwLockReadGuard<'_, T>> {
     rt::acquire(self.id, rt::Mode::Read, Location::caller());
@@ -181,7 +207,23 @@ impl<T> Mutex<T> {
     }
   }
 }
+impl<T> Mutex<T> {
+  pub fn into_inner(self) -> LockResult<T> {
+    Ok(self.data.into_inner())
+  }
+}
 impl<T: ?Sized> Mutex<T> {
+  pub fn get_mut(&mut self) -> LockResult<&mut T> {
+    Ok(self.data.get_mut())
+  }
+  #[track_caller]
+  pub fn try_lock(&self) -> ::std::sync::TryLockResult<MutexGuard<'_, T>> {
+    if rt::try_acquire(self.id, rt::Mode::Write, Location::caller()) {
+      Ok(MutexGuard { lock: self })
+    } else {
+      Err(::std::sync::TryLockError::WouldBlock)
+    }
+  }
   #[track_caller]
   pub fn lock(&self) -> LockResult<MutexGuard<'_, T>> {
     rt::acquire(self.id, rt::Mode::Write, Location::caller());
@@ -835,6 +877,44 @@ pub mod rt {
       ver = l.ver;
     }
     log(&mut g, me, Ev::Acq { obj, write, ver, rec: false }, &s);
+  }
+
+  /// non-blocking acquisition: a scheduling point, then granted iff free
+  pub fn try_acquire(obj: ObjId, mode: Mode, site: Site) -> bool {
+    let me = current_task();
+    if me == usize::MAX {
+      return true;
+    }
+    let write = mode == Mode::Write;
+    let mut g = lock_state();
+    if g.abort.is_some() && ::std::thread::panicking() {
+      return false;
+    }
+    let s = site_str(site);
+    g.tasks[me].site = s.clone();
+    g.tasks[me].pending = Pending::None;
+    g = reschedule(g, me, false);
+    g = check_abort(g);
+    if g.abort.is_some() {
+      return false;
+    }
+    let l = g.locks.entry(obj).or_default();
+    let free = if write { l.writer.is_none() && l.readers.is_empty() } else { l.writer.is_none() };
+    if !free {
+      return false;
+    }
+    let ver;
+    if write {
+      l.writer = Some(me);
+      l.ver += 1;
+      ver = l.ver;
+    } else {
+      l.readers.push(me);
+      ver = l.ver;
+    }
+    log(&mut g, me, Ev::Req { obj, write }, &s);
+    log(&mut g, me, Ev::Acq { obj, write, ver, rec: false }, &s);
+    true
   }
 
   pub fn release(obj: ObjId, mode: Mode) {
